@@ -113,6 +113,9 @@ func (w *world) drawChain(name string, misIssue, shapes bool) *chainEnt {
 	w.chains = append(w.chains, ch)
 	r.Logf("chain %s ia=%s key=%s ca=%s valid %v defect=%q fp=%s", ch.name, ia, key.name, ca.name, ch.asWin, ch.defect, fp(ch.certs))
 	w.sample.CAs = len(w.cas)
+	if len(w.sample.Chains) >= 6 {
+		return ch
+	}
 	w.sample.Chains = append(w.sample.Chains, fmt.Sprintf("%s %s ca=%s(%s) valid %v defect=%q", ch.name, ia, ca.name, ca.root.name, ch.asWin, ch.defect))
 	return ch
 }
